@@ -1,10 +1,10 @@
 import OH.Proofs.EvalSpecMonad
+import OH.Proofs.EvalSpecSat
 import OH.Proofs.CalendarEval
 import OH.Spec.Rules
 import OH.Model.ParserWF
 /-
 C01 refinement, dated ranges (`MonthdayRange.date`), basics shared by the three sub-classes:
- * `DateOffset.apply` is the specification's `shift` when nothing saturates;
  * `dateOnYear` is the specification's `dateInstance` (same clamping of impossible days);
  * instances of a date lie inside their year; shifted instances within the offset bound of it;
  * a declarative reading of `datedOk` (no `maxOpt`).
@@ -12,44 +12,6 @@ C01 refinement, dated ranges (`MonthdayRange.date`), basics shared by the three 
 namespace OH.Proofs.EvalSpec
 open OH.Model OH.Model.Cal
 open OH.Spec (shift dateInstance exactInstance specYear datedOk maxOpt candidateYears yearsNear yearSpan isFixedDate)
-
-/-! ### offsets -/
-
-theorem apply_eq_shift (o : DateOffset) (d : Int) (hw : o.wday.wf = true)
-    (hn : -106751991167 ≤ o.days ∧ o.days ≤ 106751991167)
-    (h1 : minDay + 6 ≤ d + o.days) (h2 : d + o.days + 6 ≤ maxDay) :
-    o.apply d = .ok (shift o d) := by
-  unfold DateOffset.apply shift
-  simp only []
-  rw [addDaysSat_eq hn (by omega) (by omega)]
-  cases hwd : o.wday with
-  | none => rfl
-  | prev t =>
-    simp only [hwd, WdayOffset.wf, decide_eq_true_eq] at hw
-    simp only []
-    have hlt := weekday_lt (d + o.days)
-    rw [addDaysSat_eq (by omega) (by omega) (by omega)]
-    have e : weekday (d + o.days + -((((7 + weekday (d + o.days) - t) % 7 : Nat)) : Int)) = t % 7 := by
-      unfold weekday at *; omega
-    simp only [e, beq_self_eq_true, Bool.true_or, if_true]
-    congr 1
-  | next t =>
-    simp only [hwd, WdayOffset.wf, decide_eq_true_eq] at hw
-    simp only []
-    have hlt := weekday_lt (d + o.days)
-    rw [addDaysSat_eq (by omega) (by omega) (by omega)]
-    have e : weekday (d + o.days + ((((7 + t - weekday (d + o.days)) % 7 : Nat)) : Int)) = t % 7 := by
-      unfold weekday at *; omega
-    simp only [e, beq_self_eq_true, Bool.true_or, if_true]
-
-/-- a shifted day stays within 6 days of the day-offset target -/
-theorem shift_bounds (o : DateOffset) (d : Int) :
-    d + o.days - 6 ≤ shift o d ∧ shift o d ≤ d + o.days + 6 := by
-  unfold shift
-  simp only []
-  cases o.wday <;> simp only [] <;> omega
-
-theorem shift_none (n : Int) (d : Int) : shift ⟨.none, n⟩ d = d + n := rfl
 
 /-! ### instances of a date on a year -/
 
